@@ -4,7 +4,7 @@ import numpy as np
 
 from harness import circgen as cg, logicsim_corr as lc, oracle_net as on, simcheck as sk
 
-THEOREMS = ['C02_dispatch8_spec', 'C02_dispatch4_spec', 'C02_lanes', 'C02_x_sound', 'C02_proj8', 'C02_bool_is_2valued', 'C02_gate_by_gate']
+THEOREMS = ['C02_dispatch8_spec', 'C02_dispatch4_spec', 'C02_lanes', 'C02_x_sound', 'C02_proj8', 'C02_bool_is_2valued', 'C02_gate_by_gate', 'C02_end_to_end_default']
 
 
 def check_lane_semantics(c, m, stim, s1, mask):
